@@ -59,7 +59,52 @@ let panic_name (s : BinNums.coq_N) =
   | 2 -> "panic@rtmp.writeSingleChunkHeader:explicit"
   | k -> Printf.sprintf "panic %d" k
 
+(* ---- MessagePacker ------------------------------------------------------------- *)
+let z_of_tok s = Conv.z_of_int (int_of_string (if String.length s > 2 && s.[1] = 'x' then string_of_int (int_of_string s) else s))
+
+let pcmd_of (cmd : string) : RtmpMsgPacker.pcmd =
+  let f = Array.of_list (String.split_on_char ':' cmd) in
+  let n i = n_of_token f.(i) and z i = z_of_tok f.(i) and b i = bytes_of_token f.(i) in
+  match f.(0) with
+  | "cs" -> RtmpMsgPacker.PChunkSize (n 1)
+  | "was" -> RtmpMsgPacker.PWinAckSize (n 1)
+  | "pbw" -> RtmpMsgPacker.PPeerBandwidth (n 1, n 2)
+  | "connect" -> RtmpMsgPacker.PConnect (b 1, b 2, b 3)
+  | "cres" -> RtmpMsgPacker.PConnectResult (z 1, z 2, b 3)
+  | "cstream" -> RtmpMsgPacker.PCreateStream
+  | "csres" -> RtmpMsgPacker.PCreateStreamResult (z 1)
+  | "play" -> RtmpMsgPacker.PPlay (b 1, n 2)
+  | "publish" -> RtmpMsgPacker.PPublish (b 1, n 2)
+  | "ospub" -> RtmpMsgPacker.POnStatusPublish (n 1)
+  | "osplay" -> RtmpMsgPacker.POnStatusPlay (n 1)
+  | "rec" -> RtmpMsgPacker.PStreamIsRecorded (n 1)
+  | "begin" -> RtmpMsgPacker.PStreamBegin (n 1)
+  | "pingreq" -> RtmpMsgPacker.PPingRequest (n 1)
+  | "ack" -> RtmpMsgPacker.PAck (n 1)
+  | "pingresp" -> RtmpMsgPacker.PPingResponse (n 1)
+  | "raw" -> RtmpMsgPacker.PRaw (n 1, n 2, n 3, b 4)
+  | _ -> failwith "bad packer cmd"
+
+let register_packer () =
+  Registry.register "c08.pk" (function
+      | [cmds] ->
+        let cs = Stdlib.List.map pcmd_of (String.split_on_char '|' cmds) in
+        let rs = RtmpMsgPacker.packer_run RtmpMsgPacker.new_packer cs in
+        let failed = Stdlib.List.exists (function Res.Ok _ -> false | _ -> true) rs in
+        let outs = Stdlib.List.map (function
+            | Res.Ok b -> token_of_bytes b
+            | Res.Err _ -> "err"
+            | Res.Panic s -> (match int_of_n s with 2 -> "panic@rtmp.writeSingleChunkHeader:explicit" | k -> Printf.sprintf "panic-buf %d" k)) rs in
+        if failed then String.concat "," outs
+        else begin
+          let all = Stdlib.List.concat (Stdlib.List.map (function Res.Ok b -> b | _ -> []) rs) in
+          Printf.sprintf "%s %s" (String.concat "," outs)
+            (show_run (RtmpComposer.run_composer (RtmpComposer.init_cstate (n_of_int 4096)) all))
+        end
+      | _ -> "bad-args")
+
 let register () =
+  register_packer ();
   Registry.register "c08.w2c" (function
       | [chunk; csid; mlen; ty; msid; ts; p; prev] ->
         let p = bytes_of_token p in
